@@ -16,7 +16,7 @@ import sim as simlib
 from props.c05 import CFG, split_messages
 
 FINDING_SILENT = "C08-closing-waits-for-silent-peer"
-CAUSES = ["local", "dpr", "eof", "refused", "eof-setup", "local-silent", "dpr-bad", "reset", "eof-partial", "eof-partial"]
+CAUSES = ["local", "dpr", "eof", "refused", "eof-setup", "local-silent", "dpr-bad", "reset", "eof-partial", "eof-partial", "reset-both", "reset-both"]
 POINTS = ["idle", "queued-out", "queued-in", "busy"]
 LIB_THREADS = ("psm_thread", "transport_layer_thread", "recv_message_monitor")
 
@@ -138,6 +138,10 @@ def scenario(seed, cause, point, consumer, lines, restart=True):
                     sock.eof = True
                 elif cause == "reset":
                     sock.recv_error = ConnectionResetError(104, "Connection reset by peer")
+                elif cause == "reset-both":
+                    # the peer is gone: reading reports the reset, writing reports a broken pipe - whichever the node tries first
+                    sock.recv_error = ConnectionResetError(104, "Connection reset by peer")
+                    sock.send_error = BrokenPipeError(32, "Broken pipe")
                 elif cause == "dpr":
                     sock.inbox.append(DPR(origin_host="peer.h", origin_realm="peer.r").dump())
                 elif cause == "dpr-bad":
@@ -152,7 +156,16 @@ def scenario(seed, cause, point, consumer, lines, restart=True):
                 obs["phase"] = "cause-applied"
                 obs["cause_at"] = s.steps
             # wait for the end of the connection, then use the same node object again
-            while not (d.get_current_state() == "Closed" and lib_threads_done() and teardown["at"] is not None):
+            while not (d.get_current_state() == "Closed" and teardown["at"] is not None):
+                mods.time.sleep(0.01)
+            if rng.random() < 0.5:
+                # an application that submits right after the node reported Closed, while its workers are still winding down
+                try:
+                    d.send_message(DiameterRequest(command_code=316, application_id=16777251))
+                    obs["send_after"] = "accepted"
+                except BaseException as e:
+                    obs["send_after"] = type(e).__name__
+            while not lib_threads_done():
                 mods.time.sleep(0.01)
             obs["phase"] = "ended"
             # the blocked consumer sits in a timed wait: give the scheduler room to fire it (probability 0.05 per step)
@@ -160,12 +173,13 @@ def scenario(seed, cause, point, consumer, lines, restart=True):
                 if obs["consumer"] != "blocked":
                     break
                 mods.time.sleep(0.01)
-            try:
-                r = DiameterRequest(command_code=316, application_id=16777251)
-                d.send_message(r)
-                obs["send_after"] = "accepted"
-            except BaseException as e:
-                obs["send_after"] = type(e).__name__
+            if obs["send_after"] is None:
+                try:
+                    r = DiameterRequest(command_code=316, application_id=16777251)
+                    d.send_message(r)
+                    obs["send_after"] = "accepted"
+                except BaseException as e:
+                    obs["send_after"] = type(e).__name__
             if restart:
                 try:
                     d.start()
